@@ -812,6 +812,237 @@ def build_catalog():
         L = T.nn.LinearLayerTT(N, P["M"], [1] + [2] * (d - 1) + [1], dtype=torch.float64)
         return (lambda: L(torch.ones([2] + N, dtype=torch.float64))), \
                (lambda: L(torch.ones([2] + _bump(N, P["k"], P["aux"]), dtype=torch.float64))), None
+
+    # ---- classes reported by the audit of C18 (invalid calls that returned an object) -----------------------------
+    def _g2(N):
+        return [max(n, 2) for n in N]
+
+    @entry("truediv:multi_element_tensor", False)
+    def _(T, P):
+        x = _tt(T, P["N"], P["R1"], P["seed"])
+        t = torch.ones(2 + P["aux"] % 3, dtype=torch.float64) * 2.0
+        if P["aux"] % 2:
+            t = t.reshape(-1, 1)
+        return (lambda: x / 2.0), (lambda: x / t), None
+
+    @entry("getitem:operator_odd_index_count", True)
+    def _(T, P):
+        A = _tt(T, P["N"], P["R1"], P["seed"], M=P["M"])
+        d = len(P["N"])
+        good = tuple([0] * (2 * d))
+        bad = tuple([0] * (2 * d + 1)) if P["aux"] % 2 else tuple([slice(None)] * (2 * d) + [0])
+        return (lambda: A[good]), (lambda: A[bad]), None
+
+    def _guess_wrong_order(T, P):
+        N = _g2(P["N"])
+        g = _tt(T, N + [2], P["R3"] + [1], P["seed"] + 9)      # one trailing mode too many, rank 1 at the cut
+        return N, g
+
+    @entry("fast_matvec:initial_wrong_order", False)
+    def _(T, P):
+        N, g = _guess_wrong_order(T, P)
+        A = _tt(T, N, P["R1"], P["seed"], M=N)
+        x = _tt(T, N, P["R2"], P["seed"] + 1)
+        ok = _tt(T, N, P["R3"], P["seed"] + 9)
+        return (lambda: A.fast_matvec(x, initial=ok, eps=1e-6, use_cpp=False)), (lambda: A.fast_matvec(x, initial=g, eps=1e-6, use_cpp=False)), None
+
+    @entry("dmrg_hadamard:z0_wrong_order", False)
+    def _(T, P):
+        N, g = _guess_wrong_order(T, P)
+        x = _tt(T, N, P["R1"], P["seed"])
+        y = _tt(T, N, P["R2"], P["seed"] + 1)
+        ok = _tt(T, N, P["R3"], P["seed"] + 9)
+        return (lambda: T.dmrg_hadamard(x, y, z0=ok, eps=1e-6, use_cpp=False)), (lambda: T.dmrg_hadamard(x, y, z0=g, eps=1e-6, use_cpp=False)), None
+
+    @entry("amen_solve:x0_wrong_order", False)
+    def _(T, P):
+        N, g = _guess_wrong_order(T, P)
+        A = T.eye(N)
+        b = _tt(T, N, P["R2"], P["seed"] + 1)
+        ok = _tt(T, N, P["R3"], P["seed"] + 9)
+        return (lambda: T.solvers.amen_solve(A, b, x0=ok, eps=1e-6, nswp=4, use_cpp=False)), \
+               (lambda: T.solvers.amen_solve(A, b, x0=g, eps=1e-6, nswp=4, use_cpp=False)), None
+
+    def _pos(T, N, R, seed):
+        z = _tt(T, N, R, seed)
+        return z * z + 1.0
+
+    @entry("elementwise_divide:start_wrong_order", False)
+    def _(T, P):
+        N, g = _guess_wrong_order(T, P)
+        x = _tt(T, N, P["R1"], P["seed"])
+        y = _pos(T, N, P["R3"], P["seed"] + 1)
+        ok = _tt(T, N, P["R3"], P["seed"] + 9)
+        return (lambda: T.elementwise_divide(x, y, eps=1e-6, starting_tensor=ok, nswp=6)), \
+               (lambda: T.elementwise_divide(x, y, eps=1e-6, starting_tensor=g, nswp=6)), None
+
+    def _with_one(N, k):
+        N1 = list(N)
+        N1[k] = 1
+        return N1
+
+    @entry("fast_matvec:singleton_vs_n", True)
+    def _(T, P):
+        N = _g2(P["N"])
+        A = _tt(T, N, P["R1"], P["seed"], M=N)
+        x = _tt(T, N, P["R2"], P["seed"] + 1)
+        x1 = _tt(T, _with_one(N, P["k"]), P["R2"], P["seed"] + 1)
+        return (lambda: A.fast_matvec(x, eps=1e-6, use_cpp=False)), (lambda: A.fast_matvec(x1, eps=1e-6, use_cpp=False)), None
+
+    @entry("amen_mm:inner_singleton_vs_n", True)
+    def _(T, P):
+        N = _g2(P["N"])
+        A = _tt(T, N, P["R1"], P["seed"], M=N)
+        B = _tt(T, N, P["R3"], P["seed"] + 1, M=N)
+        B1 = _tt(T, N, P["R3"], P["seed"] + 1, M=_with_one(N, P["k"]))
+        return (lambda: T.amen_mm(A, B, eps=1e-6, nswp=4)), (lambda: T.amen_mm(A, B1, eps=1e-6, nswp=4)), None
+
+    @entry("amen_mm:order_mismatch", True)
+    def _(T, P):
+        N = _g2(P["N"])
+        A = _tt(T, N + [2], P["R1"] + [1], P["seed"], M=N + [2])
+        B = _tt(T, N + [2], P["R3"] + [1], P["seed"] + 1, M=N + [2])
+        Bs = _tt(T, N, P["R3"], P["seed"] + 1, M=N)
+        return (lambda: T.amen_mm(A, B, eps=1e-6, nswp=4)), (lambda: T.amen_mm(A, Bs, eps=1e-6, nswp=4)), None
+
+    @entry("manifold_projection:singleton_vs_n", False)
+    def _(T, P):
+        N = _g2(P["N"]) + [2]
+        x = _tt(T, N, P["R1"] + [1], P["seed"])
+        z = _tt(T, N, P["R2"] + [1], P["seed"] + 1)
+        z1 = _tt(T, _with_one(N, P["k"]), P["R2"] + [1], P["seed"] + 1)
+        return (lambda: T.manifold.riemannian_projection(x, z)), (lambda: T.manifold.riemannian_projection(x, z1)), None
+
+    @entry("elementwise_divide:order_mismatch", False)
+    def _(T, P):
+        N = _g2(P["N"])
+        x = _tt(T, N, P["R1"], P["seed"])
+        y = _pos(T, N, P["R3"], P["seed"] + 1)
+        yl = _pos(T, N + [2], P["R3"] + [1], P["seed"] + 1)
+        if P["aux"] % 2:
+            xl = _tt(T, N + [2], P["R1"] + [1], P["seed"])
+            return (lambda: T.elementwise_divide(x, y, eps=1e-6, nswp=6)), (lambda: T.elementwise_divide(xl, y, eps=1e-6, nswp=6)), None
+        return (lambda: T.elementwise_divide(x, y, eps=1e-6, nswp=6)), (lambda: T.elementwise_divide(x, yl, eps=1e-6, nswp=6)), None
+
+    @entry("function_interpolate:argument_shape_mismatch", False)
+    def _(T, P):
+        N = _g2(P["N"])
+        x = _tt(T, N, P["R3"], P["seed"])
+        y = _tt(T, N, P["R3"], P["seed"] + 1)
+        Nb = list(N)
+        Nb[P["k"]] += 1 + P["aux"] % 2
+        yb = _tt(T, Nb, P["R3"], P["seed"] + 1) if P["aux"] % 3 else _tt(T, N + [2], P["R3"] + [1], P["seed"] + 1)
+        f = lambda v: v[:, 0] + v[:, 1]
+        return (lambda: T.interpolate.function_interpolate(f, [x, y], eps=1e-6, nswp=4)), \
+               (lambda: T.interpolate.function_interpolate(f, [x, yb], eps=1e-6, nswp=4)), None
+
+    @entry("layer:mode_count_mismatch", False)
+    def _(T, P):
+        N, M = list(P["N"]), list(P["M"])
+        d = len(N)
+        R = [1] + [2] * (d - 1) + [1]
+        if P["aux"] % 2:
+            return (lambda: T.nn.LinearLayerTT(N, M, R)), (lambda: T.nn.LinearLayerTT(N + [2], M, R)), None
+        return (lambda: T.nn.LinearLayerTT(N, M, R)), (lambda: T.nn.LinearLayerTT(N, M + [2], R)), None
+
+    @entry("layer:rank_list_length", False)
+    def _(T, P):
+        N, M = list(P["N"]), list(P["M"])
+        d = len(N)
+        R = [1] + [2] * (d - 1) + [1]
+        return (lambda: T.nn.LinearLayerTT(N, M, R)), (lambda: T.nn.LinearLayerTT(N, M, R + [1])), None
+
+    @entry("layer:input_singleton_vs_n", False)
+    def _(T, P):
+        N = _g2(P["N"])
+        d = len(N)
+        L = T.nn.LinearLayerTT(N, P["M"], [1] + [2] * (d - 1) + [1], dtype=torch.float64)
+        return (lambda: L(torch.ones(N, dtype=torch.float64))), (lambda: L(torch.ones(_with_one(N, P["k"]), dtype=torch.float64))), None
+
+    @entry("mprod:list_length_mismatch", True)
+    def _(T, P):
+        N = list(P["N"]) + [3]
+        x = _tt(T, N, P["R1"] + [1], P["seed"])
+        F0 = torch.ones(2, N[0], dtype=torch.float64)
+        if P["aux"] % 2:
+            return (lambda: x.mprod([F0], [0])), (lambda: x.mprod([F0], [0, len(N) - 1])), None
+        return (lambda: x.mprod([F0], [0])), (lambda: x.mprod([], [0])), None
+
+    @entry("to_qtt:non_power_mode", True)
+    def _(T, P):
+        bad_n = [3, 5, 6, 9][P["aux"] % 4]
+        x = _tt(T, [4, 8], [1, 2, 1], P["seed"])
+        xb = _tt(T, [4, bad_n], [1, 2, 1], P["seed"])
+        return (lambda: x.to_qtt()), (lambda: xb.to_qtt()), None
+
+    @entry("sum:repeated_axis", True)
+    def _(T, P):
+        x = _tt(T, list(P["N"]) + [2], P["R1"] + [1], P["seed"])
+        k = P["k"]
+        return (lambda: x.sum([k])), (lambda: x.sum([k, k])), None
+
+    @entry("dot_axis:repeated_axis", False)
+    def _(T, P):
+        N = _g2(P["N"]) + [2]
+        x = _tt(T, N, P["R1"] + [1], P["seed"])
+        k = P["k"]
+        b1 = _tt(T, [N[k]], [1, 1], P["seed"] + 1)
+        b2 = _tt(T, [N[k], N[k]], [1, 2, 1], P["seed"] + 1)
+        return (lambda: T.dot(x, b1, [k])), (lambda: T.dot(x, b2, [k, k])), None
+
+    @entry("reshape:negative_or_fractional_entries", True)
+    def _(T, P):
+        x = _tt(T, [4, 6], [1, 2, 1], P["seed"])
+        bad = [[-4, -6], [24, 0.5, 2], [-2, -12]][P["aux"] % 3]
+        return (lambda: T.reshape(x, [4, 6])), (lambda: T.reshape(x, bad)), None
+
+    @entry("meshgrid:non_1d_input", False)
+    def _(T, P):
+        v = torch.arange(3, dtype=torch.float64)
+        w = torch.arange(4, dtype=torch.float64)
+        return (lambda: T.meshgrid([v, w])), (lambda: T.meshgrid([torch.ones(3, 2, dtype=torch.float64), w])), None
+
+    @entry("shape:three_tuple_entries", False)
+    def _(T, P):
+        which = P["aux"] % 3
+        if which == 0:
+            return (lambda: T.ones([(2, 3), (2, 2)])), (lambda: T.ones([(2, 3, 4), (2, 2, 2)])), None
+        if which == 1:
+            return (lambda: T.zeros([(2, 3), (2, 2)])), (lambda: T.zeros([(2, 3, 4), (2, 2, 2)])), None
+        return (lambda: T.randn([(2, 3), (2, 2)], [1, 2, 1])), (lambda: T.randn([(2, 3, 4), (2, 2, 2)], [1, 2, 1])), None
+
+    @entry("randn:rank_list_length", True)
+    def _(T, P):
+        N = list(P["N"])
+        d = len(N)
+        R = [1] + [2] * (d - 1) + [1]
+        f = T.randn if P["aux"] % 2 else T.random
+        return (lambda: f(N, R)), (lambda: f(N, R + [1])), None
+
+    @entry("round:rmax_list_length", False)
+    def _(T, P):
+        N = list(P["N"]) + [2, 2]
+        x = _tt(T, N, P["R1"] + [1, 1], P["seed"])
+        d = len(N)
+        return (lambda: x.round(1e-10, [1] + [4] * (d - 1) + [1])), (lambda: x.round(1e-10, [1, 4, 1] if d > 2 else [1])), None
+
+    @entry("amen_solve:unknown_option_value", True)
+    def _(T, P):
+        N = _g2(P["N"])
+        A = T.eye(N)
+        b = _tt(T, N, P["R2"], P["seed"] + 1)
+        if P["aux"] % 2:
+            return (lambda: T.solvers.amen_solve(A, b, eps=1e-6, nswp=3, use_cpp=False)), \
+                   (lambda: T.solvers.amen_solve(A, b, eps=1e-6, nswp=3, use_cpp=False, preconditioner="zzz")), None
+        return (lambda: T.solvers.amen_solve(A, b, eps=1e-6, nswp=3, use_cpp=False)), \
+               (lambda: T.solvers.amen_solve(A, b, eps=1e-6, nswp=3, use_cpp=False, local_solver=5)), None
+
+    @entry("cat:empty_sequence", False)
+    def _(T, P):
+        x = _tt(T, P["N"], P["R1"], P["seed"])
+        return (lambda: T.cat((x, x), 0)), (lambda: T.cat((), 0)), None
+
+
     return C
 
 
